@@ -68,6 +68,11 @@ def firstBadMove (s s' : St) : Option Nat := s.alloc.find? (fun p => !moveOk s s
 def histStepMon (st : HistState) (req : List String) : HistState × String :=
   match req with
   | "cfg" :: _ => ({ prev := none, crashed := false, abandoned := false, l2 := {} }, "ok")
+  | "relax" :: _ =>
+    -- states were withheld (leak window after a panic-dropped transaction): both monitors start
+    -- again from the next state; the algorithmic model keeps what it knows of the hidden state
+    ({ prev := none, crashed := false, abandoned := false,
+       l2 := { model := st.l2.model, steps := [], counterUnknown := true } }, "ok")
   | "step" :: what :: rest =>
     let isTxn := what = "txn"
     let ended := rest.any (fun t => t = "end=Abort" || t = "end=Drop")
@@ -169,6 +174,7 @@ def histStep (st : HistState) (req : List String) : HistState × String :=
   let (st1, out) := histStepMon st req
   match req with
   | "cfg" :: _ => (st1, out)
+  | "relax" :: _ => (st1, out)
   | "step" :: rest =>
     let toks := rest.takeWhile (· ≠ "=>")
     let res := (rest.dropWhile (· ≠ "=>")).drop 1
